@@ -53,6 +53,14 @@ CLAIMS = {
                      'after it is reproduced on the real code; structures on which fold and code disagree are decided on times recorded from the code for the whole grid.',
                 ref='4 (C10)', note='Trusted: TLC/SANY, Json, recorder. The property quantifies over all positive durations; the check covers a finite grid ({0.5,1,2,3}^4 quick, 7 values^4 thorough) realising the orderings of the four durations.',
                 technique='TLA+ spec Occupancy.tla; TLC sweep of the configuration grid over structures recorded from the real constructors, bound by sampled real times'),
+    'C14': dict(text='Noise.tla defines the dressing on instruction sequences (noisy measurement per target with the assignment error selected through the index map; blocks split at TICK inclusive; per qubit an idle channel '
+                     'before and after each block selected by the block\'s longest configured operation class, measurements included, and the qubit\'s T1/T2); TLC checks Strip(Dress(c)) = c on all sequences <=4 (quick) / <=5 '
+                     'over a small alphabet under three settings tables and validates outputs of the real apply_noise (exporter outputs + random sequences x 3 settings / index maps) for strip, placement, measurement and selection.',
+                ref='4 (C14), 5', note='Trusted: TLC/SANY, Json, stim API for exact arguments. The exponential formula itself is evaluated by the harness for the parameter selection the specification makes (TLA+ has no reals) and range-checked.',
+                technique='TLA+ spec Noise.tla; TLC model check + TLC validation of classified outputs of the real noise dresser; closed form evaluated by a numeric shim'),
+    'C18': circ('Drawing events: the real plot_circuit runs (Agg) with deterministic channel orders / label maps (incl. an unknown channel) in compact and non-compact mode inside and outside duration overrides; the description it hands to '
+                'the renderer and the rectilinear transforms of its components are captured and TLC checks rows, labels, width, rejection, and that components sit at the specification\'s start times (under the drawing\'s durations) '
+                'on the rows of their qubits (multiset match); purity is decided by twin runs (history with the drawings erased, TLC ErasureTrace) and by the memo clause; all operation classes are drawn.', '4 (C18), 5'),
     'C12': dict(text='IndexKernel.tla states block lengths, starts, categories, calibration offsets, slicing and the estimate; TLC checks tiling / disjointness / cover / translation / estimate-inverse for every '
                      'list of distinct round counts in the bounded universe (exhaustive) and validates, one implementation test per specification state, every getter of the real kernels.',
                 ref='4 (C12)', note='Trusted: TLC/SANY, Json module, table driver. Universe: lists of <=3 (quick) / <=5 (thorough) distinct counts from 0..3 / 0..5, both heralded settings, repetitions <=2 / <=3, plus 40 random larger descriptions.',
